@@ -228,6 +228,21 @@ func (g *genTree) newAlphaKey(r *RNG, fanHeavy bool) []byte {
 	if fanHeavy {
 		w = []int{8, 12, 70, 10}
 	}
+	if r.Chance(1, 40) {
+		// length boundaries: keys whose length sits at, just below or just above a
+		// power of two (stack buffers, size classes, inline arrays)
+		L := pick(r, []int{15, 16, 17, 31, 32, 33, 63, 64, 65, 126, 127, 128, 129, 255, 256, 257, 511, 512}) + r.Range(-1, 1)
+		k := make([]byte, L)
+		fill := pick(r, nulFreeAlphabet)
+		for i := range k {
+			k[i] = fill
+		}
+		// a few varying bytes at the end so that several such keys coexist
+		for i := 0; i < 3 && i < L; i++ {
+			k[L-1-i] = pick(r, nulFreeAlphabet)
+		}
+		return k
+	}
 	switch r.Weighted(w) {
 	case 0: // small: dense collisions, empty key, boundary bytes
 		return g.alphaBytes(r, r.Intn(5), g.alphabet)
